@@ -38,10 +38,15 @@ tvars == <<l, bad>>
 Tag(c, t) == IF c THEN <<>> ELSE <<t>>
 ToSet(s) == {s[i] : i \in 1..Len(s)}
 
+(* pbblock / pbgroup: the exported converters types.PbToBlock / types.PbToGroup on a message that
+   was unmarshalled by the caller; same messages, same laws as block / group *)
+Base(kind) == IF kind = "pbblock" THEN "block" ELSE IF kind = "pbgroup" THEN "group" ELSE kind
+
 NormTxs(lst) == [i \in 1..Len(lst) |-> NormRec(TxKinds, lst[i])]
 ContentTxs(lst) == [i \in 1..Len(lst) |-> ContentRec(TxKinds, lst[i])]
 
-NormOf(kind, x) ==
+NormOf(kind0, x) ==
+  LET kind == Base(kind0) IN
   CASE kind = "tx" -> NormRec(TxKinds, x)
     [] kind = "txs" -> [l |-> NormTxs(x.l)]
     [] kind = "header" -> NormRec(HeaderKinds, x)
@@ -51,7 +56,8 @@ NormOf(kind, x) ==
                             IF f = "Header" THEN NormRec(GHeaderKinds, x.Header) ELSE NormField(GroupKinds[f], x[f])]
     [] kind = "member" -> NormRec(MemberKinds, x)
 
-ContentOf(kind, x) ==
+ContentOf(kind0, x) ==
+  LET kind == Base(kind0) IN
   CASE kind = "tx" -> ContentRec(TxKinds, x)
     [] kind = "txs" -> ContentTxs(x.l)
     [] kind = "header" -> ContentRec(HeaderKinds, x)
@@ -60,7 +66,8 @@ ContentOf(kind, x) ==
                            [f \in DOMAIN GroupKinds |-> Content(GroupKinds[f], x[f])]>>
     [] kind = "member" -> ContentRec(MemberKinds, x)
 
-ProducibleOf(kind, x) ==
+ProducibleOf(kind0, x) ==
+  LET kind == Base(kind0) IN
   CASE kind \in {"tx", "txs"} -> TRUE
     [] kind = "header" -> ProducibleRec(HeaderKinds, x)
     [] kind = "block" -> ProducibleRec(HeaderKinds, x.Header)
@@ -68,7 +75,8 @@ ProducibleOf(kind, x) ==
 
 (* does the value hold a time whose zone offset is negative with seconds (see WireCodec!NormField)? the
    verdict tags of such an event carry the suffix -time-negsec *)
-TimesOf(kind, x) ==
+TimesOf(kind0, x) ==
+  LET kind == Base(kind0) IN
   CASE kind = "header" -> {x.PreTime, x.CurTime}
     [] kind = "block" -> {x.Header.PreTime, x.Header.CurTime}
     [] kind = "group" -> {x.Header.BeginTime}
@@ -110,7 +118,7 @@ JudgeRoundTrip(e) ==
 
 JudgeParse(e) ==
   LET k == e.kind
-      ref == ParseRef(k, ToSet(e.present), ToSet(e.hpresent), [i \in 1..Len(e.txs) |-> ToSet(e.txs[i])], e.tv)
+      ref == ParseRef(Base(k), ToSet(e.present), ToSet(e.hpresent), [i \in 1..Len(e.txs) |-> ToSet(e.txs[i])], e.tv)
   IN  (IF e.res = "panic" THEN <<"Inv.Total.panic:" \o k \o ":" \o e.where>>
        ELSE IF e.res = "neither" THEN <<"Inv.Total.neither:" \o k>>
        ELSE (IF e.src = "presence" THEN Tag(e.res = ref, "parse-class:" \o k) ELSE <<>>)) \o
